@@ -3,7 +3,9 @@ QMODS = lib("upipe-modules", only=["upipe_queue_sink.c", "upipe_queue_source.c",
 TARGET = dict(
     rule=("tape-decoded history over one of five topologies -- 1 or 2 queue sinks -> queue source -> far sink; worker linear / worker sink / worker source "
           "(xfer manager with or without mutex, remote loop attached before or after the allocation, upump-manager probe frozen during the allocation, 1-2 mock "
-          "remote pipes that record every entry and throw transferable events) -- with queue lengths 1-4 (biased), 5-255, 300; the two logical threads are two "
+          "remote pipes that record every entry, ask for a upump manager when entered during the allocation and throw transferable events; in a third of the worker "
+          "cases thread B is a REAL thread created by upipe_pthread_xfer_mgr_alloc and both threads are served by the real uprobe_pthread_upump_mgr, run in strict "
+          "alternation under the harness' control) -- with queue lengths 1-4 (biased), 5-255, 300; the two logical threads are two "
           "harness-owned event loops in one OS thread, and the history interleaves application calls (input directly or from a source pump, set_flow_def, flush, "
           "set_output(pseudo)/NULL, attach_upump_mgr, set_max_length, forwarded control under freeze, release of any handle) with SINGLE pump callbacks of either "
           "loop; in addition an operation can be preempted at its n-th shared-memory access (UPIPE_VERIF hook: atomics, ring elements, event descriptors) by whole "
@@ -15,7 +17,8 @@ TARGET = dict(
                  "fake event loop and virtual event descriptors (engine/fake_upump.c), fake mutex recording freeze/thaw, recording probes with a side rule per pipe",
                  "named exclusion last-message-handover: no preemption while upipe_xfer_mgr_detach / upipe_qsrc_no_ref / upipe_xfer_probe_free is on the stack "
                  "(open finding, function names through the ASan symbolizer; if no symbolizer is available preemption inside calls is disabled altogether)",
-                 "lib/upipe-pthread (real threads) is not exercised: uprobe_pthread_upump_mgr and upipe_pthread_transfer need OS threads, see DESIGN.md section 8"],
+                 "real-thread mode: the OS thread made by lib/upipe-pthread executes only what the harness hands it (lock-step turn variable), so the case stays a pure function of the tape; "
+                 "free-running threads and TSan are not used"],
     execs=[dict(name="queue", harness="harness/C06_queue.c", repo=LIBUPIPE + QMODS, engine=PIPEFIX, share=1.0, libs=["-lpthread"])],
     quick=dict(cases=20000, budget=35, floor=2000), thorough=dict(cases=400000, budget=420, floor=20000),
 )
@@ -26,5 +29,5 @@ META = dict(
          "once per producer, a state where no pump of either loop can fire while buffers are undelivered is a stall (full queue must hold and later deliver), remote pipes are entered only while loop B runs or under "
          "freeze, events of application-side pipes and forwarded events arrive in thread A with their arguments, ASan for accesses to freed queues/pipes. Sampling; deterministic (no OS thread, no clock).",
     design_ref="DESIGN.md section 6, C06",
-    note="schedules at callback granularity plus preemption points at the UPIPE_VERIF hooks; real-thread execution (lib/upipe-pthread) and TSan are not part of this check. Open finding last-message-handover is excluded by construction and replayed with the exclusion off (KNOWN-FINDING lines). The same executor compiled with -DQUEUE_PROP=1 serves C01 (end-of-case audit).",
+    note="schedules at callback granularity plus preemption points at the UPIPE_VERIF hooks; lib/upipe-pthread runs on a real second thread but in lock-step (no free-running threads, no TSan). Open finding last-message-handover is excluded by construction and replayed with the exclusion off (KNOWN-FINDING lines). The same executor compiled with -DQUEUE_PROP=1 serves C01 (end-of-case audit).",
 )
